@@ -703,6 +703,20 @@ func (e *Env) eval(x ast.Expr) tv {
 		return e.sliceExpr(n)
 	case *ast.CallExpr:
 		return e.callExpr(n)
+	case *ast.TypeAssertExpr:
+		a := e.eval(n.X)
+		iv, ok := a.v.(VIface)
+		if !ok {
+			evalFail("type assertion on non-interface in %q", e.in)
+		}
+		t, err := e.ex.L.Contracts.resolveType(e.pkg.Name(), exprText(n.Type))
+		if err != nil {
+			evalFail("contract drift: %v in %q", err, e.in)
+		}
+		if iv.Dyn == nil || !types.Identical(iv.Dyn, t) {
+			evalFail("type assertion %s.(%s) not decided by the dynamic type in %q (state it with typeis first)", exprText(n.X), exprText(n.Type), e.in)
+		}
+		return tv{iv.Val, t}
 	}
 	evalFail("unsupported expression %T in %q", x, e.in)
 	return tv{}
